@@ -337,7 +337,9 @@ PROPS["C16"] = dict(
         dict(module="MC_SVConc", cfg="MC_SVConc_gen_quick.cfg", tiers=("quick",), workers=8),
         dict(module="MC_SVConc", cfg="MC_SVConc_current_thorough.cfg", tiers=("thorough",), workers=14, gen=False, timeout=3400, heap="24g"),
         dict(module="MC_SVConc", cfg="MC_SVConc_gen_thorough.cfg", tiers=("thorough",), workers=14, timeout=3400, heap="24g"),
-        dict(module="MC_SVConc", cfg="MC_SVConc_gen3_thorough.cfg", tiers=("thorough",), workers=14, timeout=3400, heap="24g"),
+        # 2 threads x 2 calls and 3 threads x 1 call have 10^5..10^6 interleavings: sampled by TLC's simulator
+        dict(module="MC_SVConc", cfg="MC_SVConc_gen22_sim.cfg", tiers=("thorough",), workers=1, timeout=1200, simulate=("num=15000", 60), timeout_ok=True),
+        dict(module="MC_SVConc", cfg="MC_SVConc_gen3_thorough.cfg", tiers=("thorough",), workers=1, timeout=1200, simulate=("num=15000", 60), timeout_ok=True),
     ],
     trace="Trace_C16",
     drive=dict(quick=dict(n=400, size=3), thorough=dict(n=8000, size=5)),
